@@ -193,6 +193,7 @@ func classifyMapRange(info *types.Info, fd *ast.FuncDecl, rs *ast.RangeStmt) (bo
 		})
 	}
 	var appended []string
+	appendedExpr := map[string]ast.Expr{}
 	bad := ""
 	var visit func(n ast.Node, inNested bool)
 	visit = func(n ast.Node, inNested bool) {
@@ -235,11 +236,13 @@ func classifyMapRange(info *types.Info, fd *ast.FuncDecl, rs *ast.RangeStmt) (bo
 						}
 						// filling a slice that is sorted afterwards is order-independent
 						appended = append(appended, wire.Canon(ix.X))
+						appendedExpr[wire.Canon(ix.X)] = ix.X
 						continue
 					}
 					if i < len(x.Rhs) {
 						if call, ok := x.Rhs[i].(*ast.CallExpr); ok && wire.Canon(call.Fun) == "append" {
 							appended = append(appended, wire.Canon(l))
+							appendedExpr[wire.Canon(l)] = l
 							continue
 						}
 					}
@@ -307,12 +310,12 @@ func classifyMapRange(info *types.Info, fd *ast.FuncDecl, rs *ast.RangeStmt) (bo
 			// a work list: a local slice that is only measured, indexed, re-sliced
 			// and appended to, never returned, stored or handed to a call — the
 			// order of its elements decides the order of the visit, not the result
-			if localWorkList(info, fd, sl) {
+			if localWorkList(info, fd, appendedExpr[sl]) {
 				continue
 			}
 			// the slice is this function's result and every caller only folds it
 			// into a set: `for _, x := range f() { m[x] = … }`
-			if resultOnlyFoldedIntoSets != nil && resultOnlyFoldedIntoSets(info, fd, sl) {
+			if resultOnlyFoldedIntoSets != nil && resultOnlyFoldedIntoSets(info, fd, appendedExpr[sl]) {
 				continue
 			}
 			return false, "appends to " + sl + " in map iteration order and never sorts it"
@@ -1121,18 +1124,13 @@ func reachableFromEntry(info *types.Info, tpkg *types.Package, decls map[*types.
 
 // localWorkList: the slice named sl is a local variable of fd whose every use
 // is len(sl), sl[i], sl[a:b], sl = append(sl, …) or sl = sl[…].
-func localWorkList(info *types.Info, fd *ast.FuncDecl, sl string) bool {
+func localWorkList(info *types.Info, fd *ast.FuncDecl, sl ast.Expr) bool {
 	var obj types.Object
-	ast.Inspect(fd.Body, func(n ast.Node) bool {
-		if id, ok := n.(*ast.Ident); ok && id.Name == sl && obj == nil {
-			if o := info.ObjectOf(id); o != nil {
-				if _, isVar := o.(*types.Var); isVar && fd.Body.Pos() <= o.Pos() && o.Pos() < fd.Body.End() {
-					obj = o
-				}
-			}
+	if id, isId := ast.Unparen(sl).(*ast.Ident); isId {
+		if o, isVar := info.ObjectOf(id).(*types.Var); isVar && fd.Body.Pos() <= o.Pos() && o.Pos() < fd.Body.End() {
+			obj = o
 		}
-		return true
-	})
+	}
 	if obj == nil {
 		return false
 	}
@@ -1188,10 +1186,16 @@ func localWorkList(info *types.Info, fd *ast.FuncDecl, sl string) bool {
 // the program is the operand of a range statement whose body does nothing but
 // store into maps under the element as key — the order of the slice cannot
 // reach the output.
-var resultOnlyFoldedIntoSets func(info *types.Info, fd *ast.FuncDecl, sl string) bool
+var resultOnlyFoldedIntoSets func(info *types.Info, fd *ast.FuncDecl, sl ast.Expr) bool
 
-func makeResultOnlyFoldedIntoSets(p *load.Prog) func(info *types.Info, fd *ast.FuncDecl, sl string) bool {
-	return func(info *types.Info, fd *ast.FuncDecl, sl string) bool {
+func makeResultOnlyFoldedIntoSets(p *load.Prog) func(info *types.Info, fd *ast.FuncDecl, sl ast.Expr) bool {
+	return func(info *types.Info, fd *ast.FuncDecl, slx ast.Expr) bool {
+		slid, isId := ast.Unparen(slx).(*ast.Ident)
+		if !isId {
+			return false
+		}
+		target := info.ObjectOf(slid)
+		sl := slid.Name
 		self, _ := info.Defs[fd.Name].(*types.Func)
 		if self == nil || self.Exported() {
 			return false
@@ -1214,12 +1218,10 @@ func makeResultOnlyFoldedIntoSets(p *load.Prog) func(info *types.Info, fd *ast.F
 			if _, isVar := o.(*types.Var); !isVar {
 				return true
 			}
-			if obj == nil {
-				obj = o
-			}
-			if o != obj {
+			if o != target {
 				return true
 			}
+			obj = o
 			switch par := stack[len(stack)-2].(type) {
 			case *ast.ReturnStmt, *ast.ValueSpec:
 			case *ast.AssignStmt:
